@@ -118,3 +118,26 @@ def _(u):
         u.prove("step.final.reward-is-minus-makespan.upper", -r >= out["schedule"].at(b, m, jj) + pre["job_duration"].at(b, jj, m))
         u.prove("step.final.reward-is-minus-makespan.attained", u.exists((MT, J), lambda m2, j2: -r == out["schedule"].at(b, m2, j2) + pre["job_duration"].at(b, j2, m2)))
     u.canary("step.nothing-advances", out["job_location"].at(b, j) == pre["job_location"].at(b, j))
+
+
+@unit("ffsp.reset", file=F, func="FFSPEnv._reset", props=("C07",))
+def _(u):
+    B, J, S, M, MT, P = u.dims("B J S M MT P")
+    u.requires(AND(P >= 1, MT >= 1, J >= 1, zint(MT) == zint(M) * zint(S)))
+    tables, st, mt, smt = _tables(u, S, M, MT, P, B)
+    tables._attrs["set_bs"] = lambda bs: None                         # (bs is the batch size already)
+    u.stub(IndexTables=lambda env: tables)                           # the index tables (itertools.permutations): arbitrary tables in range
+    env = u.obj(F, "FFSPEnv", num_job=J, num_stage=S, num_machine=M, num_machine_total=MT, device="cpu")
+    run_time = u.tensor("run_time", (B, J, MT), "i")
+    td = u.td(B, run_time=((B, J, MT), "i"))
+    rt = td["run_time"]
+    u.inline((F, "IndexTables.get_stage_index"), (F, "IndexTables.get_stage_machine_index"), (F, "IndexTables.get_machine_index"))
+    out = u.run(F, "FFSPEnv._reset", td, [B], selfobj=env, record=False)
+    b, j, jj, m = u.idx((B,), "b"), u.idx((J + 1,), "j"), u.idx((J,), "jj"), u.idx((MT,), "m")
+    u.prove("reset.clock-at-zero", AND(out["time_idx"].at(b) == 0, out["sub_time_idx"].at(b) == 0, out["stage_idx"].at(b) == st.at(0)))
+    u.prove("reset.every-job-at-the-first-stage-and-free", AND(out["job_location"].at(b, j) == 0, out["job_wait_step"].at(b, j) == 0, out["machine_wait_step"].at(b, m) == 0))
+    u.prove("reset.durations-are-the-instance-run-times", AND(out["job_duration"].at(b, jj, m) == rt.at(b, jj, m), out["job_duration"].at(b, J, m) == 0))
+    u.prove("reset.nothing-scheduled", out["schedule"].at(b, m, j) == -999999)
+    u.prove("reset.mask-offers-every-job-and-no-waiting", AND(out["action_mask"].at(b, jj), NOT(out["action_mask"].at(b, J)), NOT(out["done"].at(b))))
+    u.prove("reset.shapes", AND(*[zint(x) == zint(y) for x, y in zip(tuple(out["job_duration"].shape), (B, J + 1, MT))], tuple(out.batch_size) == (B,)))
+    u.canary("reset.waiting-offered", out["action_mask"].at(b, J))
